@@ -1,0 +1,82 @@
+//go:build verif
+
+// Contracts for package hashmap, checked by /verif (govc). Comments only;
+// compiled only with -tags verif; adds no code.
+
+package hashmap
+
+// ---------------------------------------------------------------------------
+// The keys (properties C04, C11).  hcode / heq are the abstract hash code and
+// equality of the Hasher implementations; both methods are pure.
+// A-HASHLAW (assumed for the clauses that need it, proved for Quartet in C04):
+// heq(a,b) ==> hcode(a) == hcode(b).
+// ---------------------------------------------------------------------------
+
+//@ spec hcode(k Hasher) int
+//@ spec heq(a Hasher, b Hasher) bool
+
+//@ func iface:hashmap.Hasher.HashCode
+//@   ensures [abstract_hash_code] result0 == hcode(self) && result0 >= 0
+
+//@ func iface:hashmap.Hasher.HashEquals
+//@   ensures [abstract_equality] result0 == heq(self, a0)
+
+// representation: capacity >= 1 slots; every entry is a non-nil pair with a non-nil key; every entry sits in the slot
+// selected by its hash code
+//@ define slot(h Hasher, cap uint64) int = bitand(hcode(h), cap - 1)
+//@ define HMok(em *HashMap) bool = em != nil && em.capacity >= 1 && len(em.mapArray) == em.capacity && (forall i int, j int :: {em.mapArray[i][j]} 0 <= i && i < len(em.mapArray) && 0 <= j && j < len(em.mapArray[i]) ==> em.mapArray[i][j] != nil && allocated(em.mapArray[i][j]) && itag(em.mapArray[i][j].Key) != 0) && (forall i int, i2 int :: {em.mapArray[i], em.mapArray[i2]} 0 <= i && i < i2 && i2 < len(em.mapArray) ==> arr(em.mapArray[i]) == 0 || arr(em.mapArray[i]) != arr(em.mapArray[i2]))
+//@ define HMplaced(em *HashMap) bool = forall i int, j int :: {em.mapArray[i][j]} 0 <= i && i < len(em.mapArray) && 0 <= j && j < len(em.mapArray[i]) ==> slot(em.mapArray[i][j].Key, em.capacity) == i
+
+// Value: the first entry of the selected slot whose key equals h, under the read lock
+//@ func (*hashmap.HashMap).Value
+//@   requires HMok(em) && itag(h) != 0
+//@   assigns ghost(lock_RLock), ghost(lock_RUnlock)
+//@   call iface:hashmap.Hasher.HashEquals [keys_are_compared_under_the_read_lock] ghost(lock_RLock) - ghost(lock_RUnlock) == old(ghost(lock_RLock) - ghost(lock_RUnlock)) + 1
+//@   ensures [read_lock_released] ghost(lock_RLock) == old(ghost(lock_RLock)) + 1 && ghost(lock_RUnlock) == old(ghost(lock_RUnlock)) + 1
+//@   ensures [found_is_the_first_equal_key_of_the_selected_slot] result1 ==> (exists j int :: 0 <= j && j < len(em.mapArray[slot(h, em.capacity)]) && heq(h, em.mapArray[slot(h, em.capacity)][j].Key) && result0 == em.mapArray[slot(h, em.capacity)][j].Value && (forall k int :: {em.mapArray[slot(h, em.capacity)][k]} 0 <= k && k < j ==> !heq(h, em.mapArray[slot(h, em.capacity)][k].Key)))
+//@   ensures [not_found_means_no_equal_key_in_the_selected_slot] !result1 ==> (forall k int :: {em.mapArray[slot(h, em.capacity)][k]} 0 <= k && k < len(em.mapArray[slot(h, em.capacity)]) ==> !heq(h, em.mapArray[slot(h, em.capacity)][k].Key))
+//@   loop 1
+//@     invariant [no_equal_key_so_far] forall k int :: {em.mapArray[index][k]} 0 <= k && k <= rangeindex ==> !heq(h, em.mapArray[index][k].Key)
+//@     invariant [still_the_selected_slot] index == slot(h, em.capacity) && HMok(em) && ghost(lock_RLock) - ghost(lock_RUnlock) == old(ghost(lock_RLock) - ghost(lock_RUnlock)) + 1
+
+// rehash: when the load factor is reached the table doubles; every entry of the new table is a live pair sitting in
+// the slot its hash code selects for the new capacity; pairs are moved, never copied or modified. (That no entry is
+// lost is not decided: the existential witness defeats the solvers - DESIGN.md.)
+//@ define NEWOK(newmap []Bucket, newcapacity uint64) bool = forall i int, j int :: {newmap[i][j]} 0 <= i && i < len(newmap) && 0 <= j && j < len(newmap[i]) ==> newmap[i][j] != nil && allocated(newmap[i][j]) && itag(newmap[i][j].Key) != 0 && slot(newmap[i][j].Key, newcapacity) == i
+//@ define NEWFRESH(newmap []Bucket) bool = (forall i int :: {newmap[i]} 0 <= i && i < len(newmap) ==> arr(newmap[i]) == 0 || (fresh_arr(newmap[i]) && arr(newmap[i]) != arr(newmap))) && (forall i int, i2 int :: {newmap[i], newmap[i2]} 0 <= i && i < i2 && i2 < len(newmap) ==> arr(newmap[i]) == 0 || arr(newmap[i]) != arr(newmap[i2])) && oldarrays_same("*KeyValue") && oldarrays_same("Bucket")
+//@ define OLDSAME(em *HashMap) bool = em.mapArray == old(em.mapArray) && em.capacity == old(em.capacity) && em.total == old(em.total) && (forall i int :: {em.mapArray[i]} 0 <= i && i < len(em.mapArray) ==> em.mapArray[i] == old(em.mapArray[i])) && (forall i int, j int :: {em.mapArray[i][j]} 0 <= i && i < len(em.mapArray) && 0 <= j && j < len(em.mapArray[i]) ==> em.mapArray[i][j] == old(em.mapArray[i][j]) && em.mapArray[i][j].Key == old(em.mapArray[i][j].Key))
+//@ func (*hashmap.HashMap).rehash
+//@   requires HMok(em) && HMplaced(em)
+//@   allocates []Bucket, []*KeyValue
+//@   assigns em.capacity, em.mapArray
+//@   ensures [still_well_formed] HMok(em)
+//@   ensures [every_entry_in_the_slot_of_its_hash_code] HMplaced(em)
+//@   ensures [doubles_exactly_when_the_load_is_reached] em.capacity == (real(em.total) >= real(old(em.capacity)) * em.loadfactor ? 2 * old(em.capacity) : old(em.capacity))
+//@   loop 1
+//@     assigns elems(newmap), elems("*KeyValue")
+//@     invariant [new_table_shape] len(newmap) == newcapacity && newcapacity == 2 * em.capacity && em.capacity >= 1 && fresh_arr(newmap) && HMok(em) && HMplaced(em)
+//@     invariant [old_table_untouched] OLDSAME(em)
+//@     invariant [new_entries_are_live_pairs_in_their_slots] NEWOK(newmap, newcapacity)
+//@     invariant [new_buckets_in_fresh_storage] NEWFRESH(newmap)
+//@   loop 2
+//@     assigns elems(newmap), elems("*KeyValue")
+//@     invariant [new_table_shape] len(newmap) == newcapacity && newcapacity == 2 * em.capacity && em.capacity >= 1 && fresh_arr(newmap) && HMok(em) && HMplaced(em) && 0 <= rangeindex1 + 1 && rangeindex1 + 1 < len(em.mapArray) && b == em.mapArray[rangeindex1 + 1]
+//@     invariant [old_table_untouched] OLDSAME(em)
+//@     invariant [new_entries_are_live_pairs_in_their_slots] NEWOK(newmap, newcapacity)
+//@     invariant [new_buckets_in_fresh_storage] NEWFRESH(newmap)
+
+// PutValue: under the write lock; an equal key of the selected slot gets the new value in place (no new entry),
+// otherwise a new pair is appended to that slot and the count grows by one; then the load is checked
+//@ func (*hashmap.HashMap).PutValue
+//@   requires HMok(em) && HMplaced(em) && itag(h) != 0
+//@   allocates []Bucket, []*KeyValue, KeyValue
+//@   assigns em.capacity, em.mapArray, em.total, elems(em.mapArray), elems("*KeyValue"), KeyValue.Value, ghost(lock_Lock), ghost(lock_Unlock)
+//@   call iface:hashmap.Hasher.HashEquals [keys_are_compared_under_the_write_lock] ghost(lock_Lock) - ghost(lock_Unlock) == old(ghost(lock_Lock) - ghost(lock_Unlock)) + 1
+//@   call (*hashmap.HashMap).rehash [load_checked_under_the_write_lock_after_an_insertion] ghost(lock_Lock) - ghost(lock_Unlock) == old(ghost(lock_Lock) - ghost(lock_Unlock)) + 1 && em.total == old(em.total) + 1
+//@   ensures [write_lock_released] ghost(lock_Lock) == old(ghost(lock_Lock)) + 1 && ghost(lock_Unlock) == old(ghost(lock_Unlock)) + 1
+//@   ensures [count_grows_by_one_exactly_when_no_equal_key_was_in_the_selected_slot] em.total == old(em.total) + ((exists k int :: 0 <= k && k < old(len(em.mapArray[slot(h, em.capacity)])) && heq(h, old(em.mapArray[slot(h, em.capacity)][k].Key))) ? 0 : 1)
+//@   ensures [an_equal_key_gets_the_value_in_place] em.total == old(em.total) ==> (exists k int :: 0 <= k && k < old(len(em.mapArray[slot(h, em.capacity)])) && heq(h, old(em.mapArray[slot(h, em.capacity)][k].Key)) && old(em.mapArray[slot(h, em.capacity)][k]).Value == value) && em.mapArray == old(em.mapArray) && em.capacity == old(em.capacity)
+//@   ensures [still_well_formed] HMok(em) && HMplaced(em)
+//@   loop 1
+//@     invariant [no_equal_key_so_far] forall k int :: {em.mapArray[index][k]} 0 <= k && k <= rangeindex ==> !heq(h, em.mapArray[index][k].Key)
+//@     invariant [nothing_written_yet] index == slot(h, em.capacity) && HMok(em) && HMplaced(em) && em.total == old(em.total) && em.mapArray == old(em.mapArray) && em.capacity == old(em.capacity) && ghost(lock_Lock) - ghost(lock_Unlock) == old(ghost(lock_Lock) - ghost(lock_Unlock)) + 1 && (forall i int :: {em.mapArray[i]} 0 <= i && i < len(em.mapArray) ==> em.mapArray[i] == old(em.mapArray[i])) && (forall i int, j int :: {em.mapArray[i][j]} 0 <= i && i < len(em.mapArray) && 0 <= j && j < len(em.mapArray[i]) ==> em.mapArray[i][j] == old(em.mapArray[i][j]) && em.mapArray[i][j].Key == old(em.mapArray[i][j].Key))
